@@ -346,4 +346,5 @@ func GenUniverseGraph(t *rapid.T, c *Case) {
 			}
 		}
 	}
+	GenHidden(t, s, g)
 }
